@@ -123,6 +123,28 @@ def relay_property_fails(impl, model):
     return None
 
 
+def giveup(ctx, binp, corr_broken):
+    """known finding replay: the tool as shipped (handler behind go-nsq's handlerLoop, max_attempts 5)"""
+    rc, log = ctx.run_cmd([binp, "-test.run", "^TestVerifN2HGiveUp$", "-test.count=1"], timeout=120)
+    rows = [dict(kv.split("=") for kv in l.split()[1:]) for l in log.splitlines() if l.startswith("GIVEUP ")]
+    if len(rows) < 4:
+        ctx.log("give-up replay did not run:\n" + log[-800:])
+        corr_broken.append("give-up replay (TestVerifN2HGiveUp)")
+        return
+    ctx.corr["give_up"] = rows
+    for r in rows:
+        mx, att = int(r["max_attempts"]), int(r["attempts"])
+        ctx.evaluations += 1
+        model_gives_up = mx > 0 and att > mx          # Nsq.Model.Relay.Http.shouldFail
+        observed = (r["response"] == "FIN" and r["requests"] == "0")
+        if observed != model_gives_up or (not observed and (r["response"] != "REQ" or r["requests"] != "1")):
+            corr_broken.append("correspondence give-up rule attempts=%d: %s" % (att, r))
+        if observed:   # property: a failing destination must lead to Requeue, never to Finish
+            ctx.violation("gives-up-after-max-attempts",
+                          "nsq_to_http finished a message (attempts=%d, max_attempts=%d) without any request while the "
+                          "destination answers 500" % (att, mx), "tool=nsq_to_http max_attempts=%d attempts=%d destination=500\n" % (mx, att))
+
+
 def run(ctx):
     ctx.trusted += [
         "bufio.Reader.ReadBytes (modelled as: the bytes up to and including the first delimiter, or the rest with io.EOF)",
@@ -137,6 +159,8 @@ def run(ctx):
         "eventually accepts are hypotheses (fairness); only `if one attempt is accepted everywhere then Finish` is proved",
         "a stalled nsq_to_nsq transaction is never answered by the tool itself: the source's message timeout redelivers it",
         "JSON filter (--require-json-field / --whitelist-json-field) is an arbitrary function of the body in the model",
+        "tool_fin_only_after_accept_partial: the consumer library does not give up (max_attempts = 0 or attempts <= "
+        "max_attempts); with the default max_attempts=5 the full statement is refuted (open finding gives-up-after-max-attempts)",
     ]
     ctx.rule = ("to_nsq: generated (delimiter, input) pairs — any bytes, empty records, runs of delimiters, missing final "
                 "delimiter, records of 4090..4101 and 8189..8194 bytes around the bufio buffer — through the real "
@@ -204,11 +228,13 @@ def run(ctx):
             ctx.broken_ties.append("harness e8/n2n_test.go does not compile against the current tree")
         else:
             run_relay(ctx, b, "TestVerifN2NCorr", "n2n", corr_broken, ctx.budget(720, 7200))
-        b = ctx.go_test_binary("apps/nsq_to_http", ["e8/n2h_test.go"], "e8n2h", pkgname="main")
+        b = ctx.go_test_binary("apps/nsq_to_http", ["e8/n2h_test.go", "e8/stub_nsqd.go"], "e8n2h", pkgname="main")
         if not b:
             ctx.broken_ties.append("harness e8/n2h_test.go does not compile against the current tree")
         else:
             run_relay(ctx, b, "TestVerifN2HCorr", "n2h", corr_broken, ctx.budget(1800, 18000))
+        if b:
+            giveup(ctx, b, corr_broken)
     if (ctx.broken_ties or corr_broken) and not ctx.violations:
         ctx.broken_without_input(ctx.broken_ties + corr_broken,
                                  "search: %d generated inputs / messages through the real tools found no property failure"
